@@ -286,13 +286,95 @@ func checkVirtualSize(c *Ctx, fn *ssa.Function) {
 						fmt.Sprintf("input kind %s enters the witness weight with coefficient %d, expected %s=%d", k, got, cname, want))
 				}
 				c.Check("C07-R2", "witness-marker-and-flag", r.Pos(), wl.Konst == 2, fmt.Sprintf("witness weight lacks the 2 marker/flag bytes (constant %d)", wl.Konst))
+				// the witness term is counted whenever ANY witness-bearing kind is present: each integer guard of the
+				// block that computes it must mention all witness kinds (with one sign) or none of them
+				if ph, ok := stripConv(wphi).(*ssa.Phi); ok {
+					for ei, e := range ph.Edges {
+						if k, isC := constInt(e); isC && k == 0 {
+							continue
+						}
+						pred := ph.Block().Preds[ei]
+						for _, form := range p.guardFormsLin(pred) {
+							mentioned, sign, consistent := 0, int64(0), true
+							for k, i := range kinds {
+								if k == "P2PKH" {
+									continue
+								}
+								cf := form.L.Coef[fmt.Sprintf("param#%d", i)]
+								if cf == 0 {
+									continue
+								}
+								mentioned++
+								if sign == 0 {
+									sign = cf
+								} else if sign != cf {
+									consistent = false
+								}
+							}
+							okG := mentioned == 0 || (mentioned == len(kinds)-1 && consistent)
+							c.Check("C07-R2", "witness-term-guard-covers-every-witness-kind", r.Pos(), okG,
+								"the witness weight is only counted under the condition '"+form.String()+"', which does not involve every witness-bearing input kind: a transaction whose only witness inputs are of the missing kind is estimated without marker, flag and witness data (fee below the requested rate)")
+						}
+					}
+				}
 			}
 		}
 	}
 }
 
+// checkCountsPerPass: the author's retry loop re-fetches the complete input set on every pass, so the input-kind
+// counts handed to the size estimator must be recomputed from zero in every pass: none of them may be carried
+// around the retry loop (a phi at its header), or a retry counts the inputs of the earlier passes again.
+func checkCountsPerPass(c *Ctx, fn *ssa.Function) {
+	n := 0
+	for _, est := range callsNamed(fn, "EstimateVirtualSize") {
+		var outer *Loop
+		for _, l := range loopsOf(fn) {
+			if l.Blocks[est.Block()] && (outer == nil || len(l.Blocks) > len(outer.Blocks)) {
+				outer = l
+			}
+		}
+		if outer == nil {
+			continue
+		}
+		for ai, a := range est.Call.Args {
+			if b, ok := a.Type().Underlying().(*types.Basic); !ok || b.Info()&types.IsInteger == 0 || ai >= 4 {
+				continue
+			}
+			n++
+			carried := false
+			seen := map[ssa.Value]bool{}
+			var walk func(v ssa.Value)
+			walk = func(v ssa.Value) {
+				v = stripConv(v)
+				if seen[v] {
+					return
+				}
+				seen[v] = true
+				switch x := v.(type) {
+				case *ssa.Phi:
+					if x.Block() == outer.Header {
+						carried = true
+					}
+					for _, e := range x.Edges {
+						walk(e)
+					}
+				case *ssa.BinOp:
+					walk(x.X)
+					walk(x.Y)
+				}
+			}
+			walk(a)
+			c.Check("C07-R3", fmt.Sprintf("input-kind-count-recomputed-every-pass:arg%d", ai), est.Pos(), !carried,
+				"an input-kind count handed to EstimateVirtualSize is carried around the author's retry loop instead of being recomputed from zero for the inputs of this pass: after a retry the fee is computed for the inputs of all passes together (overpayment, or a false 'insufficient funds')")
+		}
+	}
+	c.Floor("C07-R3", "input-kind counts handed to the estimator inside the retry loop", n, 4)
+}
+
 func checkAuthor(c *Ctx, fn *ssa.Function) {
 	p := c.P
+	checkCountsPerPass(c, fn)
 	// the change output value: NewTxOut(int64(changeAmount), script)
 	var newTxOut *ssa.Call
 	for _, call := range callsNamed(fn, "NewTxOut") {
